@@ -26,6 +26,7 @@
  "assumes": ["IO_FLAG_THREADS clear", "no write_error handler installed", "block size in {16, 1024}: 16 is a configuration bound for tractability (the function only adds the block size to a cursor and passes it on as a length), 1024 the smallest real block size", "fewer than 2^31-512 cache accesses per channel (int access clock)", "caller's buffer does not alias a cache buffer", "block numbers below 2^46", "CHANNEL_FLAGS_WRITETHROUGH is set before any block is dirtied (nothing in the tree toggles it)"],
  "backend": "cadical",
  "timeout": 300,
+ "cbmc_flags": ["--object-bits", "10"],
  "native": false
 }
 */
@@ -47,6 +48,28 @@
  "assumes": ["IO_FLAG_THREADS clear", "no write_error handler installed", "block size in {16, 1024} (16: configuration bound)", "requests of at most 8 blocks / 8*block_size bytes (the path is one flush and one device request whatever the size)", "block numbers below 2^46"],
  "backend": "cadical",
  "timeout": 300,
+ "cbmc_flags": ["--object-bits", "10"],
+ "native": false
+}
+*/
+/* VERIF-UNIT
+{
+ "name": "unix_write_blk64_unw",
+ "props": ["C17"],
+ "level": "U/k",
+ "tier": "wip",
+ "harness": "h_write_cached",
+ "enforce": ["unix_write_blk64"],
+ "replace": ["find_cached_block", "reuse_cache", "flush_cached_blocks", "raw_write_blk", "memcpy"],
+ "unwind": 64,
+ "unwindset": {"build_channel.0": 9, "unix_write_blk64.0": 5},
+ "unwind_reason": "cached path only for 1..WRITE_DIRECT_SIZE(4) blocks",
+ "defines": ["CFG_BS=16"],
+ "functions": ["lib/ext2fs/unix_io.c:unix_write_blk64"],
+ "assumes": [],
+ "backend": "cadical",
+ "timeout": 300,
+ "cbmc_flags": ["--object-bits", "10"],
  "native": false
 }
 */
